@@ -390,4 +390,4 @@ for _prop in ("C05", "C06", "C17"):
             if ok:
                 S.forall("outward-unit-normal-of-this-end", Tensor(nrm), lambda q: zreal(nrm.at([q[0], ()])) == (-1 if side == "left" else 1))
     _single_end.__name__ = "interval_end_point_objects_membership_and_normal"
-    scenario(_prop, [SBP + "._contains", SBP + ".normal", SBP + ".__call__", SBP + ".__init__"], configs=[f"{s}/{h}" for s in ("left", "right") for h in ("plain", "evaluated")], bounded=BOUND)(_single_end)
+    scenario(_prop, ([SBP + "._contains"] if _prop != "C06" else []) + ([SBP + ".normal"] if _prop != "C05" else []) + [SBP + ".__call__", SBP + ".__init__"], configs=[f"{s}/{h}" for s in ("left", "right") for h in ("plain", "evaluated")], bounded=BOUND)(_single_end)
